@@ -622,6 +622,52 @@ Section RQ.
   Qed.
 End RQ.
 
+(* twins that start with the same unread records end with the same unread records: the readers queue the same IN_IGNORED
+   records (inotify_rm_watch is not maskable) *)
+Section TQ.
+  Variable C : cfg.
+  Variables M M' : N.
+  Let C' := with_mask C M'.
+
+  Lemma forget_tree_twin_queue keys p : forall r k k',
+    kwt M M' k k' -> k_queue k = k_queue k' ->
+    k_queue (snd (forget_tree keys p r k)) = k_queue (snd (forget_tree keys p r k')).
+  Proof.
+    induction keys as [|[q x] keys IH]; intros r k k' T Q; cbn [forget_tree]; [exact Q|].
+    destruct (beqb q p || starts (p ++ [sep]) q); [|apply IH; assumption].
+    destruct (alookup beqb q (wfp r)) as [wd|]; [|apply IH; assumption].
+    destruct (alookup N.eqb wd (pfw r)) as [q'|]; [|apply IH; assumption].
+    destruct (beqb q' q); [|apply IH; assumption].
+    destruct (krm_watch_twin M M' k k' wd T Q) as [T1 Q1]. apply IH; assumption.
+  Qed.
+
+  Lemma settle_twin_queue r k k' e : kwt M M' k k' -> k_queue k = k_queue k' ->
+    k_queue (snd (settle_pending C r k e)) = k_queue (snd (settle_pending C' r k' e)).
+  Proof.
+    intros T Q. unfold settle_pending. cbn [C' with_mask c_fix_moveout].
+    destruct (c_fix_moveout C); [|exact Q]. destruct (pend r) as [[c p]|]; [|exact Q].
+    destruct (is_moved_to (k_mask e) && N.eqb (k_cookie e) c && amem N.eqb (k_wd e) (pfw r)); [exact Q|].
+    apply forget_tree_twin_queue; assumption.
+  Qed.
+
+  Lemma read_batch_twin_queue (HM : c_mask C = M) t b : forall r k k' acc r1 k1 o1 r2 k2 o2,
+    kwt M M' k k' -> k_queue k = k_queue k' ->
+    read_batch C t (r, k, acc) b = Done (r1, k1, o1) -> read_batch C' t (r, k', acc) b = Done (r2, k2, o2) ->
+    k_queue k1 = k_queue k2.
+  Proof.
+    induction b as [|e b IH]; intros r k k' acc r1 k1 o1 r2 k2 o2 T Q H1 H2; cbn [read_batch] in *.
+    - inversion H1; inversion H2; subst. exact Q.
+    - destruct (read_one C t (r, k, acc) e) as [[[ra ka] oa]|] eqn:E1; [|discriminate].
+      destruct (read_one C' t (r, k', acc) e) as [[[rb kb] ob]|] eqn:E2; [|discriminate].
+      pose proof (read_one_twin C M M' HM t r k k' acc e T) as Tw. fold C' in Tw. rewrite E1, E2 in Tw.
+      destruct Tw as [Ta [Tb Tc]]. cbn [fst snd] in *. subst rb ob.
+      rewrite read_one_settle in E1, E2.
+      apply read_one_body_queue in E1. apply read_one_body_queue in E2.
+      eapply (IH ra ka kb oa); try eassumption.
+      rewrite E1, E2. apply settle_twin_queue; assumption.
+  Qed.
+End TQ.
+
 Section Step.
   Variable F : option (list evbase).
   Variable C : cfg.
@@ -667,12 +713,12 @@ Section Step.
   (* ONE OPERATION: the filtered watch queues the accepted part of what the unfiltered watch queues,
      and the two worlds stay twins *)
   Theorem transparent_step full w k k' r o w1 k1 r1 evs :
-    kw0 WATCHDOG_ALL M' k k' -> qjunk k -> regular_step w k r o ->
+    kw0 WATCHDOG_ALL M' k k' -> k_queue k = k_queue k' -> qjunk k -> regular_step w k r o ->
     run_one None C full w k r o = Some (w1, k1, r1, evs) ->
     exists k1', run_one F C' full w k' r o = Some (w1, k1', r1, filter (acc F) evs) /\
-                kw0 WATCHDOG_ALL M' k1 k1' /\ qjunk k1.
+                kw0 WATCHDOG_ALL M' k1 k1' /\ k_queue k1 = k_queue k1' /\ qjunk k1.
   Proof.
-    intros [T Q] J [ND0 [ND1 G]] Hrun. unfold run_one in *.
+    intros T Q J [ND0 [ND1 G]] Hrun. unfold run_one in *.
     destruct (apply_op w o) as [w'|]; [|discriminate].
     set (kU := kernel_op k (w_fs w) o) in *. set (kF := kernel_op k' (w_fs w) o).
     assert (Q0 : kq M' k k').
@@ -689,14 +735,15 @@ Section Step.
                   r' kk raws (pending_of C r) (fun H => H) G Hrd) as Hrt.
     cbn [filter] in Hrt.
     assert (K0 : kw0 WATCHDOG_ALL M' (kdrained kU) (kdrained kF)).
-    { split; [|reflexivity]. destruct T1 as [a b c d]. constructor; assumption. }
+    { destruct T1 as [a b c d]. constructor; assumption. }
     pose proof (read_batch_twin C WATCHDOG_ALL M' HM (w_fs w')
                   (filter (fun e => kkeep M' (k_mask e)) (k_queue kU)) r (kdrained kU) (kdrained kF) [] K0) as Htw.
     rewrite Hrt in Htw. fold C' in Htw. rewrite Q1.
     destruct (read_batch C' (w_fs w') (r, kdrained kF, []) (filter (fun e => kkeep M' (k_mask e)) (k_queue kU)))
-      as [[[r2 k2] raws2]|]; [|contradiction].
+      as [[[r2 k2] raws2]|] eqn:HrdF; [|contradiction].
     destruct Htw as [H1 [H2 H3]]. cbn [fst snd] in *. subst r2 raws2.
-    exists k2. split; [|split; [exact H3|]].
+    exists k2. split; [|split; [exact H3|split]].
+    2:{ eapply (read_batch_twin_queue C WATCHDOG_ALL M' HM); [exact K0 | reflexivity | exact Hrt | exact HrdF]. }
     2:{ eapply (read_batch_junk C); [|exact Hrd]. intros e []. }
     f_equal. f_equal.
     unfold C'. rewrite group_batch_with_mask. cbn [with_mask c_recursive c_root].
@@ -864,20 +911,20 @@ Qed.
 
 Theorem transparent_seq F C full (HM : c_mask C = WATCHDOG_ALL) (Hvis : visible F (c_recursive C)) ops :
   forall w k k' r evs,
-    kw0 WATCHDOG_ALL (kmask F (c_recursive C)) k k' -> qjunk k -> regular F C full w k r ops ->
+    kw0 WATCHDOG_ALL (kmask F (c_recursive C)) k k' -> k_queue k = k_queue k' -> qjunk k -> regular F C full w k r ops ->
     run_seq None C full w k r ops = Some evs ->
     run_seq F (with_mask C (kmask F (c_recursive C))) full w k' r ops = Some (filter (acc F) evs).
 Proof.
-  induction ops as [|o ops IH]; intros w k k' r evs K J R H; cbn [run_seq regular] in *.
+  induction ops as [|o ops IH]; intros w k k' r evs K Q J R H; cbn [run_seq regular] in *.
   - inversion H; subst. reflexivity.
   - destruct (apply_op w o) eqn:Ea; [|eapply IH; eassumption].
     destruct R as [R0 R].
     destruct (run_one None C full w k r o) as [[[[w1 k1] r1] e1]|] eqn:E1; [|discriminate].
-    destruct (transparent_step F C HM Hvis full w k k' r o w1 k1 r1 e1 K J R0 E1) as [k1' [E2 [K1 J1]]].
+    destruct (transparent_step F C HM Hvis full w k k' r o w1 k1 r1 e1 K Q J R0 E1) as [k1' [E2 [K1 [Q1 J1]]]].
     rewrite E2.
     destruct (run_seq None C full w1 k1 r1 ops) as [e2|] eqn:E3; [|discriminate].
     cbn [option_map] in H. inversion H; subst evs.
-    rewrite (IH w1 k1 k1' r1 e2 K1 J1 R E3). cbn [option_map]. now rewrite filter_app.
+    rewrite (IH w1 k1 k1' r1 e2 K1 Q1 J1 R E3). cbn [option_map]. now rewrite filter_app.
 Qed.
 
 Lemma construct_queue C t r k : construct C kinit t = Some (r, k) -> k_queue k = [].
@@ -899,7 +946,8 @@ Proof.
   unfold run_from, regular_from. intros R H.
   pose proof (construct_twin C WATCHDOG_ALL (kmask F (c_recursive C)) HM (w_fs w)) as T.
   destruct (construct C kinit (w_fs w)) as [[r k]|] eqn:Ec; [|discriminate].
-  destruct (construct (with_mask C (kmask F (c_recursive C))) kinit (w_fs w)) as [[r' k']|]; [|contradiction].
+  destruct (construct (with_mask C (kmask F (c_recursive C))) kinit (w_fs w)) as [[r' k']|] eqn:Ec'; [|contradiction].
   destruct T as [<- K]. eapply transparent_seq; try eassumption.
-  intros e He. rewrite (construct_queue _ _ _ _ Ec) in He. destruct He.
+  - rewrite (construct_queue _ _ _ _ Ec), (construct_queue _ _ _ _ Ec'). reflexivity.
+  - intros e He. rewrite (construct_queue _ _ _ _ Ec) in He. destruct He.
 Qed.
